@@ -116,7 +116,7 @@ def krylovsolve(
     args = _kwargs_migration(_args, args, "args")
     options = _kwargs_migration(_options, options, "options")
     H = QobjEvo(H, args=args, tlist=tlist)
-    options = options or {}
+    options = dict(options) if options else {}
     options["method"] = "krylov"
     options["krylov_dim"] = krylov_dim
     solver = SESolver(H, options=options)
